@@ -62,3 +62,41 @@ Require RV.Gen.Sites RV.Model.SiteMap RV.Proofs.SitesLits.
 Theorem C19_literals_reviewed : RV.Model.SiteMap.literals_ok RV.Model.SiteMap.files_C19.
 Proof. apply RV.Proofs.SitesLits.literals_okb_sound. vm_compute. reflexivity. Qed.
 Print Assumptions C19_literals_reviewed.
+
+(* ---- the worker's loop AS TRANSLATED FROM THE SOURCE on this run (polling_loop of
+   src/bin/roughenough-server.rs): `loop { server.process_events(..); if !KEEP_RUNNING.load(..) { return; } }`.
+   process_events of call number i is `step s i`, the answer of the load after it is `flag i`. The translated
+   loop is the functional `worker`; it tests the flag after EVERY call and only there; when the flag is first
+   found cleared after call number i + n, exactly the calls i .. i + n are made (or one of them did not
+   return); and the worker-loop model the theorems above are about (polling_loop of Model/Process.v) is this
+   loop with process_events = the live drain. ---- *)
+Require Import RV.Model.GenSupport RV.Gen.Code RV.Proofs.CodeWorker.
+From Coq Require Import List. Import ListNotations.
+
+Theorem C19_translated_worker_loop_is_model :
+  forall WS WO step flag fuel init i outs,
+  gen_polling_loop WS WO init step flag fuel tt tt tt i outs = worker WS WO step flag fuel init i outs.
+Proof. exact gen_polling_loop_model. Qed.
+Print Assumptions C19_translated_worker_loop_is_model.
+
+Theorem C19_worker_stops_at_the_first_cleared_flag :
+  forall WS WO step flag n fuel s i outs,
+  (n < fuel)%nat ->
+  (forall j, (i <= j < i + n)%nat -> flag j = true) -> flag (i + n)%nat = false ->
+  match worker WS WO step flag fuel s i outs with
+  | Ok (calls, outs') => calls = S (i + n) /\ length outs' = (length outs + S n)%nat
+  | Err _ => True
+  | Panic _ => exists j s0, (i <= j <= i + n)%nat /\ (forall r, step s0 j <> Ok r)
+  end.
+Proof. exact worker_stops_at_flag. Qed.
+Print Assumptions C19_worker_stops_at_the_first_cleared_flag.
+
+Theorem C19_model_loop_is_the_translated_loop :
+  forall H ed_sign iters s i flag_at traffic batches clk acc,
+  ok_opt (res_map (fun r => acc ++ r) (polling_loop H ed_sign iters s i flag_at traffic batches clk))
+  = ok_opt (res_map snd
+      (worker server (list serve_out)
+         (fun s j => drain_live H ed_sign (batches j) s (fst (traffic j)) (snd (traffic j)) clk 0 [])
+         (fun j => negb (flag_at <=? j)%nat) iters s i acc)).
+Proof. exact model_polling_loop_is_worker. Qed.
+Print Assumptions C19_model_loop_is_the_translated_loop.
